@@ -52,6 +52,7 @@ type WorkerCfg struct {
 	RepoHead  string         `json:"repo_head"`
 	NoShrink  bool           `json:"no_shrink"`
 	Indices   []int          `json:"indices"` // debugging: run exactly these run indices, print their hashes
+	RunSeeds  []uint64       `json:"run_seeds"` // debugging: run exactly these run seeds (as printed in MACHINERY/violation lines) and print the log tail
 	Known     []KnownPattern `json:"known"`   // findings listed in /verif/known_findings.json: recorded, but the search goes on
 }
 
@@ -153,6 +154,17 @@ func WorkerMain(t *testing.T, eng Engine) {
 	}
 	if cfg.Shards <= 0 {
 		cfg.Shards = 1
+	}
+	if len(cfg.RunSeeds) > 0 {
+		for _, rs := range cfg.RunSeeds {
+			sc := eng.Gen(rs, cfg.Params)
+			r := eng.Exec(t, sc, NewTape(splitmix(rs)), true)
+			fmt.Printf("RUNSEED %d %s %s steps=%d violations=%v\nSCENARIO %s\n", rs, r.LogHash[:16], r.Outcome, r.Steps, r.Violations, sc)
+			for _, l := range r.Log[max(0, len(r.Log)-200):] {
+				fmt.Println("  ", l)
+			}
+		}
+		return
 	}
 	if len(cfg.Indices) > 0 {
 		for _, idx := range cfg.Indices {
